@@ -127,7 +127,7 @@ def inline_calls(F, fn, pred, max_rounds=3, max_blocks=400):
                     if str(r2 or w2).endswith("from_residual") and isinstance(ct.get("target"), int):
                         sites[ct["target"]] = 1
             fn.setdefault("inlined", []).append({"callee": cid, "entry": db, "dest_local": t["dest"]["l"] if not t["dest"]["p"] else None,
-                                                 "sites": sites})
+                                                 "ret_local": dl, "sites": sites})
             # the call site: bind arguments, jump into the callee
             for i, a in enumerate(t["args"]):
                 blk["stmts"].append({"k": "assign", "lhs": {"l": dl + 1 + i, "p": []}, "rv": {"k": "use", "o": a}, "line": t.get("line"), "exp": None})
@@ -275,14 +275,39 @@ def inline_async_call(F, fn, bi, cid, cf):
         return q_
 
     cont = pt["target"]
+    # the awaited value gets a local of its own (so that the variant it was returned with can be followed to the caller's test of it)
+    fn["locals"].append({"ty": str(body["locals"][0].get("ty", "?")), "name": None})
+    payload_local = len(fn["locals"]) - 1
 
     def on_return(ct):
+        st0 = {"k": "assign", "lhs": {"l": payload_local, "p": []}, "rv": {"k": "use", "o": {"k": "move", "p": {"l": dl, "p": []}}},
+               "line": ct.get("line"), "exp": None}
         st = {"k": "assign", "lhs": {"l": pd, "p": []},
-              "rv": {"k": "agg", "ak": "adt", "adt": "std::task::Poll", "variant": "Ready", "fields": ["0"], "ops": [{"k": "move", "p": {"l": dl, "p": []}}]},
+              "rv": {"k": "agg", "ak": "adt", "adt": "std::task::Poll", "variant": "Ready", "fields": ["0"], "ops": [{"k": "copy", "p": {"l": payload_local, "p": []}}]},
               "line": ct.get("line"), "exp": None}
-        return [st], {"k": "goto", "target": cont, "file": ct.get("file"), "line": ct.get("line"), "exp": None}
+        return [st0, st], {"k": "goto", "target": cont, "file": ct.get("file"), "line": ct.get("line"), "exp": None}
 
+    first_new = len(fn["blocks"])
     entry = _splice(fn, body, short, mp, dp, on_return, pt.get("unwind"))
+    # reads of the Ready payload become reads of that local
+    def _is_payload(p_):
+        return p_["l"] == pd and len(p_["p"]) >= 2 and isinstance(p_["p"][0], dict) and p_["p"][0].get("d") == "Ready" \
+            and isinstance(p_["p"][1], dict) and p_["p"][1].get("f") == 0
+    for b_ in fn["blocks"]:
+        for st_ in b_["stmts"]:
+            if st_["k"] == "assign" and st_["rv"]["k"] == "use" and st_["rv"]["o"].get("k") in ("copy", "move") and _is_payload(st_["rv"]["o"]["p"]):
+                st_["rv"] = {"k": "use", "o": {"k": st_["rv"]["o"]["k"], "p": {"l": payload_local, "p": st_["rv"]["o"]["p"]["p"][2:]}}}
+    sites = {}
+    for j in range(first_new, len(fn["blocks"])):
+        nb = fn["blocks"][j]
+        for st_ in nb["stmts"]:
+            if st_["k"] == "assign" and st_["lhs"]["l"] == dl and not st_["lhs"]["p"] and st_["rv"]["k"] == "agg" and st_["rv"].get("variant") in mir.STD_VARIANTS:
+                sites[j] = mir.STD_VARIANTS[st_["rv"]["variant"]]
+        ct_ = nb["term"]
+        if ct_["k"] == "call" and ct_["dest"]["l"] == dl and not ct_["dest"]["p"]:
+            w2, r2 = mir.callee_of(ct_)
+            if str(r2 or w2).endswith("from_residual") and isinstance(ct_.get("target"), int):
+                sites[ct_["target"]] = 1
     fn["blocks"][pb]["term"] = {"k": "goto", "target": entry, "file": pt.get("file"), "line": pt.get("line"), "exp": pt.get("exp")}
     # the future is complete when the body returns: the Pending arm of the await's match is dead
     cb = fn["blocks"][cont]
@@ -299,7 +324,7 @@ def inline_async_call(F, fn, bi, cid, cf):
             cb["term"] = {"k": "goto", "target": ready[0], "file": ctm.get("file"), "line": ctm.get("line"), "exp": ctm.get("exp")}
     # the creating call itself is gone (its result is only the future polled above)
     fn["blocks"][bi]["term"] = {"k": "goto", "target": t["target"], "file": t.get("file"), "line": t.get("line"), "exp": None} if isinstance(t.get("target"), int) else t
-    fn.setdefault("inlined", []).append({"callee": cid, "entry": entry, "dest_local": None, "sites": {}, "async": True})
+    fn.setdefault("inlined", []).append({"callee": cid, "entry": entry, "dest_local": payload_local, "ret_local": dl, "sites": sites, "async": True})
     return True
 
 
@@ -316,10 +341,58 @@ def _devirtualise(F, fn):
                     t["f"] = {"k": "const", "ty": "fn item (devirtualised)", "fn": o[1], "fnargs": [], "resolved": o[1]}
 
 
-def inline_new_helpers(F, known, crates):
+def has_source_loop(F, fid):
+    """the function's own body (its coroutine body for an async fn) has a loop other than the poll loops of `.await`"""
+    fn = F.fns.get(fid)
+    if fn is None:
+        return False
+    if fn.get("is_async") and F.fns.get(fid + "::{closure#0}"):
+        fn = F.fns[fid + "::{closure#0}"]
+    blocks = fn["blocks"]
+
+    def succ(b):
+        t = blocks[b]["term"]
+        if t["k"] == "yield":
+            return []        # the way back into the poll loop of an `.await`
+        out = []
+        for k in ("target", "imaginary"):
+            if isinstance(t.get(k), int) and not isinstance(t.get(k), bool):
+                out.append(t[k])
+        if t["k"] == "switch":
+            out += [tg for _, tg in t["targets"]]
+            if isinstance(t.get("otherwise"), int):
+                out.append(t["otherwise"])
+        return out
+    color = {}
+    stack = [(0, iter(succ(0)))]
+    color[0] = 1
+    while stack:
+        b, it = stack[-1]
+        adv = False
+        for tg in it:
+            if blocks[tg]["cleanup"]:
+                continue
+            c = color.get(tg, 0)
+            if c == 1:
+                return True
+            if c == 0:
+                color[tg] = 1
+                stack.append((tg, iter(succ(tg))))
+                adv = True
+                break
+        if not adv:
+            color[b] = 2
+            stack.pop()
+    return False
+
+
+def inline_new_helpers(F, known, crates, keep=None):
     """rewrite F.fns in place: every call of a free / inherent function that is not in `known` (the function ids of the tree the rules
-    were confirmed on) is analysed in place in its caller; helpers with no call left are dropped from the view. Returns the report."""
+    were confirmed on) is analysed in place in its caller; helpers with no call left are dropped from the view. Returns the report.
+    keep(F, fid) -> True leaves a new helper alone (a rule module that has a contract of its own for that kind of helper)."""
     new = {fid for fid, f in F.fns.items() if f["kind"] in ("Fn", "AssocFn") and f.get("crate") in crates and fid not in known and not fid.startswith("<")}
+    if keep is not None:
+        new = {fid for fid in new if not keep(F, fid)}
     rep = {"new": sorted(new), "inlined": [], "kept": []}
     if not new:
         return rep
@@ -365,6 +438,265 @@ def inline_new_helpers(F, known, crates):
             rep["kept"].append(c)
             continue
         f = F.fns.pop(c, None)
+        body_id = c
         if f is not None and f.get("is_async"):
             F.fns.pop(c + "::{closure#0}", None)
+            body_id = c + "::{closure#0}"
+        # the helper's closures now belong to the function(s) it dissolved into
+        callers = [x[0] for x in rep["inlined"] if x[1] == c and x[0] in F.fns]
+        for k in F.fns.values():
+            if k.get("parent") in (c, body_id) and callers:
+                k["parent"] = callers[0]
+                k["also_in"] = sorted(set(callers[1:]))
+    return rep
+
+
+# ----------------------------------------------------------------------------------------
+# Option / Result combinators that take a closure, written out as the `match` they abbreviate (only in functions whose set of
+# closures differs from the confirmed tree, and only for closures that do more than format / convert / log)
+import re as _re
+
+_OWN = ("std::option::Option::", "core::option::Option::", "std::result::Result::", "core::result::Result::")
+_PURE = _re.compile(r"(fmt::format|core::fmt::|fmt::Arguments|::to_string$|::clone$|::into$|::from$|::to_owned$|hint::must_use|logger::|::as_str$"
+                    r"|::as_ref$|::to_lowercase$|::borrow$|::deref$|::as_bytes$|::len$|::is_empty$|::eq$|::ne$|::to_vec$|::as_deref$|::to_str$"
+                    r"|::to_string_lossy$|::display$|::unwrap_or_default$|::trim$|Error::|panicking::)")
+# method -> (closure argument position, what the `full` (Some/Ok) arm yields, what the `empty` (None/Err) arm yields)
+#   yields: "C(v)" closure on payload; "wrap C(v)" same, wrapped in the full variant; "v" payload; "r" the receiver unchanged;
+#           "empty" the empty variant rebuilt (None / Err(e)); "wrap-empty C(e)" Err(C(e)); "C(e)" closure on the error / no argument;
+#           "arg1" the (non-closure) second argument; "Ok v" / "Err C()" for ok_or_else
+_TABLE = {
+    "map": (1, "wrap C(v)", "empty"),
+    "and_then": (1, "C(v)", "empty"),
+    "map_err": (1, "r", "wrap-empty C(e)"),
+    "or_else": (1, "r", "C(e)"),
+    "unwrap_or_else": (1, "v", "C(e)"),
+    "map_or": (2, "C(v)", "arg1"),
+    "ok_or_else": (1, "Ok v", "Err C()"),
+}
+
+
+def _significant(F, cid):
+    cf = F.fns.get(cid)
+    if cf is None:
+        return False
+    for b in cf["blocks"]:
+        t = b["term"]
+        if t["k"] == "call":
+            w, r = mir.callee_of(t)
+            if not _PURE.search(mir.norm(r or w or "?")):
+                return True
+    return False
+
+
+def desugar_combinators(F, fn, max_rounds=4):
+    """returns (new fn or None, number of calls rewritten)"""
+    cur, total = None, 0
+    for _ in range(max_rounds):
+        base = cur or fn
+        B = mir.Body(base, F)
+        todo = []
+        for bi, w, r, t in B.calls:
+            nb = mir.norm(w or "")
+            if not nb.startswith(_OWN):
+                continue
+            m = nb.rsplit("::", 1)[-1]
+            if m not in _TABLE or not isinstance(t.get("target"), int) or t["dest"]["p"]:
+                continue
+            pos, full, empty = _TABLE[m]
+            if len(t["args"]) != pos + 1 or t["args"][0]["k"] not in ("copy", "move") or t["args"][0]["p"]["p"]:
+                continue
+            cl = [(o[1], o[2]) for o in B.origins(t["args"][pos]) if o[0] == "agg"]
+            if len(cl) != 1 or cl[0][0] not in F.fns or F.fns[cl[0][0]]["kind"] != "Closure":
+                continue
+            if len(F.fns[cl[0][0]]["blocks"]) > 200:
+                continue
+            todo.append((bi, nb, m, cl[0][0], cl[0][1]))
+        if not todo:
+            break
+        if cur is None:
+            cur = copy.deepcopy(fn)
+        # one at a time per round keeps block numbers of the remaining candidates valid (blocks are only appended)
+        for bi, nb, m, cid, ablk in todo:
+            _desugar_one(F, cur, bi, nb, m, cid, ablk)
+            total += 1
+    return cur, total
+
+
+def _desugar_one(F, fn, bi, nb, m, cid, ablk):
+    is_opt = "option::Option" in nb
+    adt = "std::option::Option" if is_opt else "std::result::Result"
+    FULL, EMPTY = ("Some", "None") if is_opt else ("Ok", "Err")
+    pos, full, empty = _TABLE[m]
+    t = fn["blocks"][bi]["term"]
+    recv = t["args"][0]["p"]["l"]
+    dest = t["dest"]
+    cont = t["target"]
+    line = t.get("line")
+    cf = F.fns[cid]
+    short = "|%s|" % m
+
+    def new_local(ty="?", name=None):
+        fn["locals"].append({"ty": ty, "name": name})
+        return len(fn["locals"]) - 1
+
+    def new_block(stmts, term):
+        fn["blocks"].append({"cleanup": False, "stmts": stmts, "term": term})
+        return len(fn["blocks"]) - 1
+
+    def goto(tg):
+        return {"k": "goto", "target": tg, "file": t.get("file"), "line": line, "exp": None}
+
+    def assign(lhs, rv):
+        return {"k": "assign", "lhs": lhs, "rv": rv, "line": line, "exp": None}
+
+    def payload(variant):
+        return {"l": recv, "p": [{"d": variant, "v": mir.STD_VARIANTS[variant]}, {"f": 0, "n": "0", "ty": "?"}]}
+
+    def agg(variant, ops, of=None):
+        return {"k": "agg", "ak": "adt", "adt": of or adt, "variant": variant, "fields": ["0"] if ops else [], "ops": ops}
+
+    # upvars of the closure: one local per captured operand, bound where the closure value is built
+    ups = []
+    for st in fn["blocks"][ablk]["stmts"]:
+        if st["k"] == "assign" and st["rv"]["k"] == "agg" and st["rv"].get("def") == cid:
+            for i, op in enumerate(st["rv"]["ops"]):
+                ul = new_local("?", None)
+                ups.append(ul)
+            binds = [assign({"l": ups[i], "p": []}, {"k": "use", "o": op}) for i, op in enumerate(st["rv"]["ops"])]
+            idx = fn["blocks"][ablk]["stmts"].index(st)
+            fn["blocks"][ablk]["stmts"][idx + 1:idx + 1] = binds
+            break
+
+    sites = {}
+
+    def closure_arm(arg_place, wrap, wrap_adt=None):
+        """blocks running the closure on arg_place (or on nothing); returns entry block"""
+        dl, dp = len(fn["locals"]), len(fn.get("promoted", []))
+        for l in cf["locals"]:
+            l2 = dict(l)
+            if l2.get("name"):
+                l2["name"] = "<%s>%s" % (short, l2["name"])
+            fn["locals"].append(l2)
+        fn.setdefault("promoted", [])
+        fn["promoted"] += copy.deepcopy(cf.get("promoted", []))
+
+        def mp(p):
+            pr = list(p["p"])
+            if p["l"] == 1:
+                if pr and pr[0] == "*":
+                    pr = pr[1:]
+                if pr and isinstance(pr[0], dict) and "f" in pr[0] and pr[0]["f"] < len(ups):
+                    base, rest = ups[pr[0]["f"]], pr[1:]
+                else:
+                    base, rest = 1 + dl, list(p["p"])
+            else:
+                base, rest = p["l"] + dl, pr
+            q_ = {"l": base, "p": []}
+            for e in rest:
+                if isinstance(e, dict) and "i" in e:
+                    e = dict(e, i=e["i"] + dl)
+                q_["p"].append(e)
+            return q_
+
+        def on_return(ct):
+            st = []
+            if wrap:
+                st.append(assign(dest, agg(wrap, [{"k": "move", "p": {"l": dl, "p": []}}], wrap_adt)))
+            else:
+                st.append(assign(dest, {"k": "use", "o": {"k": "move", "p": {"l": dl, "p": []}}}))
+            return st, goto(cont)
+        first = len(fn["blocks"])
+        entry = _splice(fn, cf, short, mp, dp, on_return, t.get("unwind"))
+        pre = []
+        if arg_place is not None and cf["arg_count"] >= 2:
+            pre.append(assign({"l": 2 + dl, "p": []}, {"k": "use", "o": {"k": "move", "p": arg_place}}))
+        # what the arm hands out, where it is a literal variant (for the path-sensitive queries)
+        for j in range(first, len(fn["blocks"])):
+            for st in fn["blocks"][j]["stmts"]:
+                if st["k"] == "assign" and st["lhs"] == dest and st["rv"]["k"] == "agg" and st["rv"].get("variant") in mir.STD_VARIANTS:
+                    sites[j] = mir.STD_VARIANTS[st["rv"]["variant"]]
+        return new_block(pre, goto(entry))
+
+    def plain_arm(kind):
+        if kind == "r":
+            st = [assign(dest, {"k": "use", "o": {"k": "move", "p": {"l": recv, "p": []}}})]
+            b = new_block(st, goto(cont))
+            return b
+        if kind == "v":
+            return new_block([assign(dest, {"k": "use", "o": {"k": "move", "p": payload(FULL)}})], goto(cont))
+        if kind == "empty":
+            ops = [] if is_opt else [{"k": "move", "p": payload("Err")}]
+            b = new_block([assign(dest, agg(EMPTY, ops))], goto(cont))
+            sites[b] = mir.STD_VARIANTS[EMPTY]
+            return b
+        if kind == "arg1":
+            return new_block([assign(dest, {"k": "use", "o": t["args"][1]})], goto(cont))
+        if kind == "Ok v":
+            b = new_block([assign(dest, agg("Ok", [{"k": "move", "p": payload("Some")}], "std::result::Result"))], goto(cont))
+            sites[b] = 0
+            return b
+        raise ValueError(kind)
+
+    def arm(kind, variant):
+        if kind == "C(v)":
+            return closure_arm(payload(variant), None)
+        if kind == "wrap C(v)":
+            return closure_arm(payload(variant), variant)
+        if kind == "C(e)":
+            return closure_arm(None if is_opt else payload("Err"), None)
+        if kind == "wrap-empty C(e)":
+            return closure_arm(payload("Err"), "Err")
+        if kind == "Err C()":
+            return closure_arm(None, "Err", "std::result::Result")
+        return plain_arm(kind)
+
+    full_b = arm(full, FULL)
+    empty_b = arm(empty, EMPTY)
+    # "r" keeps whatever variant the receiver had
+    if full == "r":
+        sites[full_b] = mir.STD_VARIANTS[FULL]
+    d = new_local("isize", None)
+    blk = fn["blocks"][bi]
+    blk["stmts"].append(assign({"l": d, "p": []}, {"k": "discr", "p": {"l": recv, "p": []}}))
+    un = new_block([], {"k": "unreachable", "file": t.get("file"), "line": line, "exp": None})
+    blk["term"] = {"k": "switch", "d": {"k": "move", "p": {"l": d, "p": []}},
+                   "targets": [[mir.STD_VARIANTS[FULL], full_b], [mir.STD_VARIANTS[EMPTY], empty_b]], "otherwise": un,
+                   "file": t.get("file"), "line": line, "exp": None}
+    fn.setdefault("inlined", []).append({"callee": nb, "entry": bi, "dest_local": dest["l"], "sites": sites, "combinator": True})
+
+
+def closure_counts(F):
+    """{named function: number of closures / coroutine bodies nested in it}"""
+    cnt = {}
+    for fid, f in F.fns.items():
+        if f["kind"] in ("Fn", "AssocFn"):
+            cnt.setdefault(fid, 0)
+    for fid, f in F.fns.items():
+        if f["kind"] in ("Fn", "AssocFn"):
+            continue
+        top = fid
+        while top in F.fns and F.fns[top].get("parent"):
+            top = F.fns[top]["parent"]
+        cnt[top] = cnt.get(top, 0) + 1
+    return cnt
+
+
+def desugar_changed_functions(F, recorded, crates):
+    """apply desugar_combinators to every function (and its closures) whose family of closures is not the recorded one"""
+    rep = []
+    now = closure_counts(F)
+    for fid in list(F.fns):
+        f = F.fns[fid]
+        if f.get("crate") not in crates:
+            continue
+        top = fid
+        while top in F.fns and F.fns[top].get("parent"):
+            top = F.fns[top]["parent"]
+        if recorded.get(top) == now.get(top, 0):
+            continue
+        new, n = desugar_combinators(F, f)
+        if new is not None and n:
+            new["crate"] = f.get("crate")
+            F.fns[fid] = new
+            rep.append((fid, n))
     return rep
